@@ -1,6 +1,7 @@
 package harness
 
 import (
+	"time"
 	"bytes"
 	"fmt"
 	"sync"
@@ -49,6 +50,7 @@ type Rec struct {
 	Stopped int
 	// behaviour
 	Slow    int       // yields inside Append/Write
+	SleepMs int       // simulated time every item takes inside Append/Write
 	gate    chan struct{}
 	Gated   bool
 	Waiting int // tasks currently waiting at the gate
@@ -118,6 +120,13 @@ func (r *Rec) OpenAll() {
 	r.mu.Unlock()
 }
 
+// clear forgets what was recorded so far (a first life of the logger under test).
+func (r *Rec) clear() {
+	r.mu.Lock()
+	r.Items, r.Done = nil, 0
+	r.mu.Unlock()
+}
+
 func (r *Rec) snapshot() []Item {
 	r.mu.Lock()
 	defer r.mu.Unlock()
@@ -132,11 +141,14 @@ func (r *Rec) doneCount() int {
 
 func (r *Rec) hold() {
 	r.mu.Lock()
-	slow, gated, g := r.Slow, r.Gated, r.gate
+	slow, gated, g, sleep := r.Slow, r.Gated, r.gate, r.SleepMs
 	r.InFlight++
 	r.mu.Unlock()
 	for i := 0; i < slow; i++ {
 		verifsim.Yield("rec.slow")
+	}
+	if sleep > 0 {
+		verifsim.Sleep("rec.sleep", time.Duration(sleep)*time.Millisecond)
 	}
 	if gated {
 		verifsim.Yield("rec.gate")
